@@ -211,7 +211,7 @@ func propC08(p *Prog, r *Report) {
 				hs, _ := mustHeldAny(lr, ev.Call)
 				ok := true
 				for _, lp := range op.Locks(p, gf, ev.Call) {
-					if !holdsMode(hs, lp, op.Mode) {
+					if !heldHereOrAtCallers(p, gf, hs, lp, op.Mode) {
 						ok = false
 					}
 				}
@@ -219,7 +219,7 @@ func propC08(p *Prog, r *Report) {
 			}
 		}
 	}
-	r.Floor("C08.b", "snapshot-read-sites", nb, 6)
+	r.Floor("C08.b", "snapshot-read-sites", nb, 4)
 	// C08.c
 	c03StampReachesPublished(p, r, "C08.a")
 	sites := seqNextSites(p)
